@@ -909,7 +909,7 @@ class Exp(Num):
                             case 3:
                                 return 8
                             case 0:  # no-cover
-                                return 15
+                                return 16
                             case 1:  # no-cover
                                 return 2
                             case 2:  # no-cover
